@@ -198,20 +198,11 @@ func autoExhaust(c *mon.Ctx, idx int64, r *rand.Rand) {
 			explicit[pid] = true
 		}
 	}
-	inRange := 0
-	for p := range explicit {
-		if p >= 0x100 {
-			inRange++
-		}
-	}
-	want := (0x1fff - 0x100) - 1 - inRange // the PMT PID 0x1000 is never handed out
 	ok, refused := 0, 0
 	pn, v, st := mon.Guarded(func() {
 		for k := 0; k < 0x2100 && refused < 3; k++ {
 			if err := m.AddElementaryStream(astits.PMTElementaryStream{StreamType: astits.StreamTypeH264Video}); err != nil {
 				refused++
-			} else if refused > 0 {
-				ok = -1 << 20 // an assignment after a refusal without any removal in between
 			} else {
 				ok++
 			}
@@ -220,17 +211,16 @@ func autoExhaust(c *mon.Ctx, idx int64, r *rand.Rand) {
 	c.Count("auto_pid_exhaustion_runs")
 	c.Add("auto_pids_assigned", int64(ok))
 	c.Case(mon.HashStr("auto-exhaust", fmt.Sprint(idx)), true)
-	data := map[string]any{"explicit_pids_first": len(explicit)}
+	data := map[string]any{"explicit_pids_first": len(explicit), "automatic_assignments": ok, "refusals": refused}
 	if pn {
 		c.Violate("C04/auto-pid/panic", "auto-exhaust", idx, fmt.Sprintf("%v\n%s", v, st), data)
 		return
 	}
-	if ok != want || refused != 3 {
-		c.Violate("C04/auto-pid/assignments-before-refusal", "auto-exhaust", idx, fmt.Sprintf("%d automatic assignments succeeded and %d were refused; %d PIDs of 0x0100..0x1FFE are free (PMT PID and %d explicit ones excluded)", ok, refused, want, inRange), data)
-		return
-	}
-	// which PIDs does the Muxer own now? WriteData on an unknown PID is refused with ErrPIDNotFound before anything else happens
+	// which PIDs does the Muxer own now? WriteData on an unknown PID is refused with ErrPIDNotFound before anything else happens.
+	// Whatever the numbering policy: every successful Add made one more distinct PID known (so there are explicit+ok of them; with
+	// only 8190 usable values more than that many successes cannot all be distinct), and none of them is the PAT, PMT or null PID
 	d := &astits.MuxerData{PES: &astits.PESData{Header: &astits.PESHeader{StreamID: 0xe0, OptionalHeader: &astits.PESOptionalHeader{MarkerBits: 2}}, Data: []byte{1}}}
+	owned := 0
 	for pid := 0; pid <= 0x1fff; pid++ {
 		d.PID = uint16(pid)
 		var err error
@@ -238,12 +228,18 @@ func autoExhaust(c *mon.Ctx, idx int64, r *rand.Rand) {
 			c.Violate("C04/auto-pid/panic", "auto-exhaust", idx, fmt.Sprintf("%v\n%s", v, st), data)
 			return
 		}
-		owned := !errors.Is(err, astits.ErrPIDNotFound)
-		should := explicit[uint16(pid)] || (pid >= 0x100 && pid < 0x1fff && pid != 0x1000)
-		if owned != should {
-			c.Violate("C04/auto-pid/owned-pid-set", "auto-exhaust", idx, fmt.Sprintf("pid %#x: owned=%v, expected %v (WriteData returned %v)", pid, owned, should, err), data)
+		if errors.Is(err, astits.ErrPIDNotFound) {
+			continue
+		}
+		owned++
+		if pid == 0 || pid == 0x1000 || pid == 0x1fff {
+			c.Violate("C04/auto-pid/reserved-pid-assigned", "auto-exhaust", idx, fmt.Sprintf("pid %#x (PAT / PMT / null packets) is an elementary stream of the Muxer (WriteData returned %v)", pid, err), data)
 			return
 		}
+	}
+	if owned != len(explicit)+ok {
+		c.Violate("C04/auto-pid/assignments-not-distinct", "auto-exhaust", idx, fmt.Sprintf("%d explicit and %d automatic additions succeeded, WriteData knows %d PIDs", len(explicit), ok, owned), data)
+		return
 	}
 	if out.Len()%188 != 0 {
 		c.Violate("C04/partial-packet-in-output:auto-exhaust", "auto-exhaust", idx, fmt.Sprintf("%d bytes", out.Len()), data)
